@@ -326,8 +326,11 @@ Definition chk_request_plan_O (c : ocase) : bool :=
   end.
 (* ... and the whole outcome computed from the request alone in canonical orders (accept / which rejection) *)
 Definition code_of (r : oresult) : nat := match r with OPlanned _ => 0 | ORejected e => e end.
+(* which of several failing merges is reported depends on the iteration order of input_features() (Props
+   PlannerO_error_class_refuted): the codes 3, 4, 5 are one class here *)
+Definition err_class (e : nat) : nat := if Nat.leb 3 e && Nat.leb e 5 then 3 else e.
 Definition chk_request_outcome_O (c : ocase) : bool :=
-  Nat.eqb (code_of (prepare_request iord_id ord_id (oc_defs c) (oc_req c))) (oc_outcome c).
+  Nat.eqb (err_class (code_of (prepare_request iord_id ord_id (oc_defs c) (oc_req c)))) (err_class (oc_outcome c)).
 
 (* classification / theorem instances evaluated on every case *)
 Definition model_amb_O (c : ocase) : bool := negb (early c) && kf_ambiguous_O (og_of c).
